@@ -123,7 +123,7 @@ def run_tlc(tag, module, consts, spec="Spec", invariants=(), properties=(), work
     cfg_path = os.path.join(wd, f"{module}.cfg")
     open(cfg_path, "w").write("\n".join(cfg) + "\n")
     cmd = ["java", "-XX:+UseParallelGC", "-Xss512m", "-Xmx12g", "-cp", TLA_CP, "tlc2.TLC",
-           "-workers", str(workers), "-metadir", os.path.join(wd, "states"), "-cleanup",
+           "-maxSetSize", "40000000", "-workers", str(workers), "-metadir", os.path.join(wd, "states"), "-cleanup",
            "-noGenerateSpecTE", "-config", cfg_path]
     if coverage:
         cmd += ["-coverage", "1"]
